@@ -634,6 +634,12 @@ func (p *InlineParser) parseBackslash(state *inlineState, start int) (end int) {
 		return end
 	}
 	end = start + 2
+	if state.source[start+1] >= utf8.RuneSelf {
+		// Not an escape: the backslash is literal.
+		// Leave the multi-byte character that follows to the scanner
+		// so that the node does not end in the middle of it.
+		end = start + 1
+	}
 	state.addToRoot(&Inline{
 		kind: TextKind,
 		span: Span{
